@@ -433,6 +433,31 @@ func init() {
 			rep.count("scenario:append-only-flushed-early", 1)
 			crashHistory(rep, m, cfg, ops, hseed, f.tier, nil)
 		}
+		// full bounded files whose committed overwrite / mapping / free-list pages live past the size limit (overflow
+		// area), followed by transactions that are rolled back, closed or committed: every crash point must still
+		// recover the last committed state
+		for i := 0; i < n/5+3; i++ {
+			hseed := r.Int63()
+			hr := rand.New(rand.NewSource(hseed))
+			cfg := engine.Config{PageSize: 1024, MaxSize: uint64(64+hr.Intn(16)) * 1024, InitMetaArea: uint32(hr.Intn(2) * 2)}
+			ops := fillAllOps(hr)
+			ops = append(ops, engine.Op{Kind: "begin", Overflow: true, WALLimit: 1000})
+			for k := 1 + hr.Intn(5); k > 0; k-- {
+				ops = append(ops, engine.Op{Kind: "setfull", P: hr.Intn(1 << 16), Seed: 1 + hr.Intn(1000)})
+			}
+			ops = append(ops, engine.Op{Kind: "commit"})
+			switch hr.Intn(3) {
+			case 0:
+				ops = append(ops, engine.Op{Kind: "begin"}, engine.Op{Kind: "rollback"})
+			case 1:
+				ops = append(ops, engine.Op{Kind: "begin"}, engine.Op{Kind: "setfull", P: hr.Intn(1 << 16), Seed: 5}, engine.Op{Kind: "close"})
+			default:
+				ops = append(ops, engine.Op{Kind: "begin", Overflow: true}, engine.Op{Kind: "free", P: hr.Intn(1 << 16)}, engine.Op{Kind: "commit"})
+			}
+			ops = append(ops, engine.Op{Kind: "verify"})
+			rep.count("scenario:overflow-area-then-abort-or-commit", 1)
+			crashHistory(rep, m, cfg, ops, hseed, f.tier, nil)
+		}
 		rep.ModelCalls = m.N
 		return rep.finish(f)
 	})
